@@ -314,6 +314,15 @@ pub fn candidates(u: &Universe) -> Vec<Injection> {
                         if !has_tag_all {
                             let copy = format!("\n\n{}", text[span_start..span_end].replace(&format!("versions = \"{}\"", value), &format!("versions = \"{}\"", other)));
                             out.push(Injection { rule: "overlapping-versions", expect: 15, file: o.file, edits: vec![(span_end, span_end, copy)], object: name.clone(), site_class: "own-tags", what: format!("copy of {} with versions \"{}\" next to \"{}\"", name, other, value) });
+                            // the clashing copy placed AFTER a later definition of the same name (other versions) in this file
+                            let later = u.objects.iter().filter(|x| x.file == o.file && x.name == name && x.item != o.item).map(|x| match &x.def {
+                                Def::Container(c) => c.span.end,
+                                Def::Definer(d) => d.span.end,
+                            }).filter(|e| *e > span_end).max();
+                            if let Some(end) = later {
+                                let verbatim = format!("\n\n{}\n", &text[span_start..span_end]);
+                                out.push(Injection { rule: "overlapping-versions-separated", expect: 15, file: o.file, edits: vec![(end, end, verbatim)], object: name.clone(), site_class: "clash-not-adjacent", what: format!("second copy of {} (versions \"{}\") placed after a later definition of that name for other versions", name, value) });
+                            }
                         }
                     }
                 }
